@@ -31,7 +31,7 @@ def gen_config(rng, *, kinds=None, scheduler=None, loss_kinds=None, max_params=4
     sched = scheduler or str(rng.choice(["list", "list", "rr"]))
     cfg = {
         "space": sd, "P": P, "D": D, "N": N, "E": E, "loss": loss, "lineup": lineup, "scheduler": sched, "model": model,
-        "seed": int(rng.integers(0, 2**31)), "real_seed": int(rng.integers(0, 2**31)), "conv": conv,
+        "seed": int(rng.choice([0, 0, 1, 2**32 - 2])) if rng.random() < 0.2 else int(rng.integers(0, 2**31)), "real_seed": int(rng.integers(0, 2**31)), "conv": conv,
         "sim_length_differs": bool(lk in ("msm", "likelihood") and rng.random() < 0.25),
     }
     if sched == "rl":
